@@ -297,6 +297,8 @@ class Ctx:
 
     # -- obligations --------------------------------------------------------------
     def oblige(self, kind, name, ok, detail=""):
+        if os.environ.get("VERIF_TIMING"):
+            print(f"[{time.time() - self.t0:8.1f}s] {kind}: {name[:90]} -> {'ok' if ok else 'FAILED'}", file=sys.stderr, flush=True)
         self.obligations.append({"kind": kind, "name": name, "ok": bool(ok), "detail": detail[-2000:] if detail else ""})
         return ok
 
